@@ -5,7 +5,7 @@ real EpollWait, dispatch of one event through the real handler, opcache.free, cl
 on the Lean model and the observed slot state (state word, free chain / freelist membership, callbacks) compared."""
 import os, shutil, subprocess, collections
 from concurrent.futures import ThreadPoolExecutor
-import common, lbtool
+import common, lbtool, epollhook
 
 LEVEL = 'proof'
 PROP = 'C10'
@@ -60,7 +60,7 @@ def run(rep):
     wd = os.path.join(common.WORK, PROP); shutil.rmtree(wd, ignore_errors=True); os.makedirs(wd)
     ok, detail = common.proof_stage(rep, MODULES, ['npdriver'])
     proof_broken = None if ok else detail
-    binary, out = common.build_harness('opcacheh')
+    binary, out = epollhook.build('opcacheh')
     if binary is None:
         rep.violation('harness does not build against /repo:\n' + out[-2000:], ['# go build failed'], no_input=True); return
     shards, seqs, nops = (16, 1500, 120) if rep.tier == 'thorough' else (8, 120, 80)
@@ -99,7 +99,7 @@ def run(rep):
         rep.violation('proof obligation broken, no failing input found in %d sequences: %s' % (n, proof_broken), ['# ' + l for l in proof_broken.split('\n')], no_input=True)
 
 def replay(rep, path):
-    binary, out = common.build_harness('opcacheh'); common.lake_build(['npdriver'])
+    binary, out = epollhook.build('opcacheh'); common.lake_build(['npdriver'])
     wd = os.path.join(common.WORK, 'replay10'); os.makedirs(wd, exist_ok=True)
     lines = [l for l in open(path).read().split('\n') if l and not l.startswith('#')]
     src = os.path.join(wd, 'in.ops'); open(src, 'w').write('\n'.join(lines) + '\n')
